@@ -90,5 +90,8 @@ Definition first_bad (h : history) : option nat := check_ops 0 empty_sys h.
    appends and UNBOUNDED joins are in the scope of [wf]) *)
 Definition unbounded_history (h : history) : bool :=
   forallb (fun oo => match fst oo with OJoin _ _ size => size <? 0 | _ => true end) h.
-Definition check_wf (h : history) : bool := negb (unbounded_history h) || wfb (map fst h).
+(* every history must meet [pwf] (the hypothesis of the theorems about truncated logs); a history
+   without bounded joins must meet [wf] *)
+Definition check_wf (h : history) : bool :=
+  pwfb (map fst h) && (negb (unbounded_history h) || wfb (map fst h)).
 Definition mismatches_wf := mismatches check_wf 0.
